@@ -73,6 +73,7 @@ def main():
                 good = r.returncode == want
                 ok_all &= good
                 first = [l for l in r.stdout.splitlines() if l.startswith("violation:")][:1]
+                print("..", m["name"], prop, "OK" if good else "MISSED" if want else "FALSE-ALARM", flush=True)
                 rows.append((m["name"], prop, "OK" if good else "MISSED" if want else "FALSE-ALARM", "exit=%d" % r.returncode,
                              "%.0fs" % (time.time() - t0), tests, (first[0][:220] if first else r.stdout.strip().splitlines()[-1][:220] if r.stdout.strip() else r.stderr[-300:])))
         finally:
